@@ -104,7 +104,7 @@ Definition wf_entry (p : str * str) : Prop :=
 Definition wf_headers (d : dict) : Prop := NoDup (keys d) /\ Forall wf_entry d.
 
 Record wf_request (e : env) : Prop := {
-  wf_method : e_method e <> [] /\ all_vis (e_method e) /\ upper (e_method e) = e_method e;
+  wf_method : e_method e <> [] /\ all_vis (e_method e);
   wf_proto : e_proto e <> [] /\ all_vis (e_proto e);
   wf_scheme : e_scheme e = A "http";
   wf_host : exists h, dict_get k_HOST (e_hdrs e) = Some h;
@@ -152,3 +152,10 @@ Definition cgi_header_key (k : str) : Prop :=
   k = k_CT \/ k = k_CL \/
   exists s, k = p_HTTP_ ++ s /\ s <> [] /\ Forall (fun c => cgi_char c = true) s /\
             s <> A "CONTENT_TYPE" /\ s <> A "CONTENT_LENGTH".
+
+(* the number of bytes a text encodes to, character by character *)
+Fixpoint text_width (cw : N -> nat) (t : str) : nat :=
+  match t with [] => O | c :: t' => (cw c + text_width cw t')%nat end.
+
+(* every character of t encodes to between 1 and 4 bytes *)
+Definition sane_widths (cw : N -> nat) (t : str) : Prop := Forall (fun c => (1 <= cw c <= 4)%nat) t.
